@@ -30,6 +30,7 @@ func checkC19(r *Report, p *Program) {
 	// "a timeout is an error": the client always has one (shared with C12)
 	r12_10(r, p)
 	// every step of the transport has its error looked at, the right way round (shared with C12)
+	etagEnabledTable(r, p, "R19.8")
 	errorChecksMeanWhatTheySay(r, p, "R19.7", func(f *ssa.Function) bool { return strings.Contains(FK(f), "/pkg/hooks.") })
 }
 
@@ -568,4 +569,48 @@ func r19_5(r *Report, p *Program) {
 		}
 		r.Check(rule, FK(nw), p.Pos(nw.Pos()), ok, "executor.mode = responseUnmarshallMode(configured)", "executor's mode is not derived through responseUnmarshallMode")
 	}
+}
+
+// etagEnabledTable: ETag support is on ⇔ the webhook has an etag block ∧ `enabled` is given ∧ it is true
+// (the documented default is off).
+func etagEnabledTable(r *Report, p *Program, rule string) {
+	r.Rule(rule, "isEtagEnabled answers true ⇔ Etag != nil ∧ Etag.Enabled != nil ∧ *Etag.Enabled")
+	r.Floor(rule, 1)
+	f := fn(r, p, rule, "hooks.isEtagEnabled")
+	if f == nil {
+		return
+	}
+	paths, err := engine.EnumPaths(f, engine.EnumOpts{})
+	ok, why := err == nil, ""
+	nTrue := 0
+	for _, pa := range paths {
+		if len(pa.Ret) != 1 {
+			continue
+		}
+		block := -val(pa, -1, func(a string) bool { return a == "(p0.Etag == nil)" })
+		given := -val(pa, -1, func(a string) bool { return a == "(p0.Etag.Enabled == nil)" })
+		value := val(pa, -1, func(a string) bool { return a == "*p0.Etag.Enabled" || a == "load(p0.Etag.Enabled)" })
+		c, isC := pa.Ret[0].(*ssa.Const)
+		switch {
+		case isC && c.Value != nil && c.Value.String() == "true":
+			nTrue++
+			if !(block == 1 && given == 1 && value == 1) {
+				ok, why = false, sf("ETag support is reported on with block=%d enabled-given=%d enabled-value=%d (an etag block that leaves `enabled` out turns conditional requests on)", block, given, value)
+			}
+		case isC && c.Value != nil && c.Value.String() == "false":
+			if block == 1 && given == 1 && value == 1 {
+				ok, why = false, "ETag support is reported off although enabled: true"
+			}
+		default:
+			// returns the value of *Enabled itself: needs block ∧ given
+			nTrue++
+			if !(block == 1 && given == 1) {
+				ok, why = false, "the answer is the value of a field read without block ∧ enabled-given"
+			}
+		}
+	}
+	if nTrue == 0 {
+		ok, why = false, "ETag support can never be on"
+	}
+	r.Check(rule, FK(f), p.Pos(f.Pos()), ok, "on ⇔ block ∧ given ∧ true", why)
 }
